@@ -72,6 +72,10 @@ def _setup_wrap_args(engine, st):
 
 def _post_wrap_args(engine, st, ctx, out):
     cl = [("_wrap_args does not raise", "EX", not isinstance(out, Raise), ["C16"])]
+    if not isinstance(out, Raise):
+        ok = isinstance(out, Z) and isinstance(out.ty, tuple) and out.ty[0] == "list"
+        cl.append(("the list built by the two loops is what is returned: at least one pair per positional input", "PC",
+                   z3.And(z3.BoolVal(ok), st.get("$len", Val.id(out.t)) >= pk_len(ctx["a"].t) if ok else False), ["C16"]))
     return cl
 
 
